@@ -2,6 +2,7 @@ import GB.C05.Witness
 import GB.C05.PipelineProofs
 import GB.C05.Deadlock
 import GB.C05.Deciders
+import GB.Generated.Facts
 /-
   C05 — reflection resolution reproduces the target's contract for any conformant server.
   Property theorems only; helper lemmas live in Proofs.lean, vocabulary in Spec.lean.
@@ -733,4 +734,190 @@ theorem C05_pipeline_nextMove_witness :
     let A : List Answer := [.files [], .files []]
     let go := fun (s : Pipe.PState) => (Pipe.step true A s (Pipe.nextMove true 2 s)).getD s
     (Nat.repeat go 19 (Pipe.init 2)).mpc = .closed ∧ (Nat.repeat go 18 (Pipe.init 2)).mpc ≠ .closed := by
+  decide
+
+
+/-! ## Regenerated facts (extract/c05.go → GB.Generated) tied to the model by `decide`
+
+A change of the version order, of a default, of a loop bound, a dropped insertion into a de-dup set, a changed
+channel capacity or a reordered defer makes the corresponding theorem fail to build (check exits 1). -/
+
+set_option maxRecDepth 100000 in
+/-- `reflectionMethods` (the initial `methodPriority`, model `initState.priority = [.v1, .v1alpha]`) lists v1 first, then v1alpha, and the two import aliases are bound to the v1 / v1alpha packages -/
+theorem C05_facts_versions : GB.Generated.c05ReflectionMethods =
+    ["reflectionpb.ServerReflection_ServerReflectionInfo_FullMethodName",
+     "reflectionalphapb.ServerReflection_ServerReflectionInfo_FullMethodName",
+     "reflectionpb=google.golang.org/grpc/reflection/grpc_reflection_v1",
+     "reflectionalphapb=google.golang.org/grpc/reflection/grpc_reflection_v1alpha"] := by decide
+
+set_option maxRecDepth 100000 in
+/-- `withDefaults`: RecursionLimit 0 ⇒ 100, negative ⇒ 0 (model `effLimit`); ReqTimeout 0 ⇒ 10 s, below 1 ms ⇒ 1 ms -/
+theorem C05_facts_defaults : GB.Generated.c05Defaults =
+    ["if opts.ReqTimeout == 0",
+     "  opts.ReqTimeout = 10 * time.Second",
+     "else if opts.ReqTimeout < time.Millisecond",
+     "  opts.ReqTimeout = time.Millisecond",
+     "if opts.RecursionLimit == 0",
+     "  opts.RecursionLimit = 100",
+     "else if opts.RecursionLimit < 0",
+     "  opts.RecursionLimit = 0"] := by decide
+
+set_option maxRecDepth 100000 in
+/-- `NewResolverBuilder` applies the defaults and then appends the administrative prefix "grpc." (model `mkCfg`) -/
+theorem C05_facts_builder : GB.Generated.c05Builder =
+    ["opts = opts.withDefaults()",
+     "opts.IgnorePrefixes = append(opts.IgnorePrefixes, \"grpc.\")",
+     "return &ResolverBuilder{ opts: opts, pool: pool, logger: opts.Logger.WithComponent(\"grpcbridge.reflection\"), }"] := by decide
+
+set_option maxRecDepth 100000 in
+/-- the de-duplication loop of `Resolver.fileDescriptors`: unmarshal, skip a name already in `processed`, INSERT the name (the D5 fix), append (model `dedupFiles`) -/
+theorem C05_facts_dedup_loop : GB.Generated.c05FileDedupLoop =
+    ["for _, bytes := range protoBytes",
+     "  fd := new(descriptorpb.FileDescriptorProto)",
+     "  if err := proto.Unmarshal(bytes, fd); err != nil",
+     "    return <error>",
+     "  if _, ok := processed[fd.GetName()]; ok",
+     "    continue",
+     "  processed[fd.GetName()] = struct{}{}",
+     "  set.File = append(set.File, fd)",
+     "  bundle = append(bundle, namedProtoBundle{name: fd.GetName(), proto: bytes})"] := by decide
+
+set_option maxRecDepth 100000 in
+/-- the filter loop of `Resolver.listServiceNames`: invalid ⇒ skip, seen ⇒ skip, insert, ignore prefixes, append (model `listFilter`) -/
+theorem C05_facts_list_loop : GB.Generated.c05ListLoop =
+    ["for _, s := range services",
+     "  fullName := protoreflect.FullName(s)",
+     "  if !fullName.IsValid()",
+     "    continue",
+     "  else if _, ok := processed[fullName]; ok",
+     "    continue",
+     "  processed[fullName] = struct{}{}",
+     "  index := slices.IndexFunc(r.opts.IgnorePrefixes, func(prefix string) bool { return strings.HasPrefix(string(fullName), prefix) })",
+     "  if index == -1",
+     "    filteredNames = append(filteredNames, fullName)"] := by decide
+
+set_option maxRecDepth 100000 in
+/-- the loop of `Resolver.retrieveDependencies`: bound `i < RecursionLimit && len(missing) > 0`, only files not yet present are appended, update/shrink, still missing ⇒ error, grow (model `bfsLoop`) -/
+theorem C05_facts_bfs_loop : GB.Generated.c05BfsLoop =
+    ["for i := 0; i < r.opts.RecursionLimit && len(missing) > 0; i++",
+     "  missingList = slices.Grow(missingList, len(missing))[:0]",
+     "  for dep := range missing",
+     "    missingList = append(missingList, dep)",
+     "  depDescriptors, depBundles, err := r.fileDescriptorsByFilenames(c, missingList)",
+     "  if err != nil",
+     "    return err",
+     "  for i, fd := range depDescriptors.File",
+     "    if _, ok := present[fd.GetName()]; !ok",
+     "      descriptors.File = append(descriptors.File, fd)",
+     "      *bundles = append(*bundles, depBundles[i])",
+     "  updatePresentDescriptorSet(depDescriptors, present)",
+     "  shrinkMissingDescriptorSet(depDescriptors, missing)",
+     "  if len(missing) > 0",
+     "    return <error>",
+     "  growMissingDescriptorSet(depDescriptors, present, missing)"] := by decide
+
+set_option maxRecDepth 100000 in
+/-- `Resolver.resolve`: versions in `methodPriority` order, Unimplemented ⇒ next, nil error ⇒ swap with position 0, anything else returned (model `resolveFrom`, `swapFront`) -/
+theorem C05_facts_resolve : GB.Generated.c05ResolveBody =
+    ["var errs []error",
+     "for i, method := range r.methodPriority",
+     "  state, err := r.resolveWithMethod(method)",
+     "  if status.Code(err) == codes.Unimplemented",
+     "    errs = append(errs, err)",
+     "    continue",
+     "  else if err == nil",
+     "    r.methodPriority[0], r.methodPriority[i] = r.methodPriority[i], r.methodPriority[0]",
+     "  return state, err",
+     "return <error>"] := by decide
+
+set_option maxRecDepth 100000 in
+/-- `execFileDescriptorRequests`: n = 0 returns at once; semaphore of capacity n, two error channels of capacity 1; `defer wg.Wait()` before `defer cancel()`; both goroutines write their channel once; `for range 2` select (LTS `Pipe.step`) -/
+theorem C05_facts_pipe_main : GB.Generated.c05PipeMain =
+    ["if len(requests) == 0",
+     "  return [][]byte{}, nil",
+     "semaphore := make(chan struct{}, len(requests))",
+     "sendErr := make(chan error, 1)",
+     "recvErr := make(chan error, 1)",
+     "var wg sync.WaitGroup",
+     "wg.Add(2)",
+     "defer wg.Wait()",
+     "ctx, cancel := context.WithCancel(context.Background())",
+     "defer cancel()",
+     "go func",
+     "  defer wg.Done()",
+     "  sendErr <- c.fileDescriptorsRequester(ctx, semaphore, requests, name)",
+     "var res [][]byte",
+     "go func",
+     "  defer wg.Done()",
+     "  recvd, err := c.fileDescriptorsReceiver(ctx, semaphore, requests, name)",
+     "  res = recvd",
+     "  recvErr <- err",
+     "for range 2",
+     "  var err error",
+     "  select",
+     "    case err = <-sendErr",
+     "    case err = <-recvErr",
+     "  if err != nil",
+     "    return nil, err",
+     "return res, nil"] := by decide
+
+set_option maxRecDepth 100000 in
+/-- requester: Send, error ⇒ return, else push a token (labels reqSend / reqSendFault / reqSignal / reqFinish) -/
+theorem C05_facts_pipe_requester : GB.Generated.c05PipeRequester =
+    ["for i, req := range requests",
+     "  if err := c.sendTimeout(ctx, req); err != nil",
+     "    return <error>",
+     "  semaphore <- struct{}{}",
+     "return nil"] := by decide
+
+set_option maxRecDepth 100000 in
+/-- receiver: select on token / ctx.Done, Recv, wrong type ⇒ error, append (labels rcvTake / rcvCancelled / rcvRecv / rcvFault) -/
+theorem C05_facts_pipe_receiver : GB.Generated.c05PipeReceiver =
+    ["for i := range requests",
+     "  select",
+     "    case <-semaphore",
+     "    case <-ctx.Done()",
+     "      return nil, ctx.Err()",
+     "  if err := c.recvTimeout(ctx, resp); err != nil",
+     "    return <error>",
+     "  if _, ok := resp.MessageResponse.(*reflectionpb.ServerReflectionResponse_FileDescriptorResponse); !ok",
+     "    return <error>",
+     "  fileDescriptors = append(fileDescriptors, resp.GetFileDescriptorResponse().GetFileDescriptorProto()...)"] := by decide
+
+set_option maxRecDepth 100000 in
+/-- `client.close`: CloseSend, graceful Recv only if no call failed, Close (labels closeSend / closeRecvCall / closeSkipRecv / closeClose) -/
+theorem C05_facts_pipe_close : GB.Generated.c05PipeClose =
+    ["c.stream.CloseSend()",
+     "if !c.failed.Load()",
+     "  ctx, cancel := context.WithTimeout(context.Background(), c.timeout)",
+     "  defer cancel()",
+     "  _ = c.stream.Recv(ctx, new(reflectionpb.ServerReflectionResponse))",
+     "c.stream.Close()"] := by decide
+
+set_option maxRecDepth 100000 in
+/-- every Send/Recv/Stream of the client runs under `context.WithTimeout(…, timeout)`, the per-request ones derived from the batch context; the resolver passes `ReqTimeout` -/
+theorem C05_facts_timeouts : GB.Generated.c05Timeouts =
+    ["connectClient: context.WithTimeout(context.Background(), timeout)",
+     "close: context.WithTimeout(context.Background(), c.timeout)",
+     "listServiceNames: context.WithTimeout(context.Background(), c.timeout)",
+     "sendTimeout: context.WithTimeout(ctx, c.timeout)",
+     "recvTimeout: context.WithTimeout(ctx, c.timeout)",
+     "resolveWithMethod: connectClient(r.opts.ReqTimeout, cc, method)"] := by decide
+
+/-- the model's de-duplication is chosen BY the regenerated loop: with the insertion into `processed` between the
+    membership test and the append it is `dedupFiles`; without it (code before the D5 fix) it would be
+    `dedupFilesBuggy`, for which `C05_unfixed_dedup_fails` shows the property fails -/
+def C05.dedupOfFacts (loop : List String) : List Name → List DFile → List DFile :=
+  match loop.dropWhile (· ≠ "  if _, ok := processed[fd.GetName()]; ok") with
+  | _ :: "    continue" :: "  processed[fd.GetName()] = struct{}{}" :: "  set.File = append(set.File, fd)" :: _ => dedupFiles
+  | _ => dedupFilesBuggy
+
+theorem C05_facts_dedup_is_fixed : C05.dedupOfFacts GB.Generated.c05FileDedupLoop = dedupFiles := by
+  simp [C05.dedupOfFacts, GB.Generated.c05FileDedupLoop, List.dropWhile]
+
+/-- the numbers of the model are the numbers of the code -/
+theorem C05_facts_limit_default :
+    "  opts.RecursionLimit = 100" ∈ GB.Generated.c05Defaults ∧ effLimit 0 = 100 ∧ effLimit (-5) = 0 ∧ effLimit 7 = 7 ∧
+    (mkCfg 0 false []).ignore = [[103, 114, 112, 99, 46]] := by
+  refine ⟨by decide, by decide, by decide, by decide, ?_⟩
   decide
